@@ -15,6 +15,7 @@ from typing import Iterable, Iterator, Optional
 import networkx as nx
 
 from .model import AnalysisError
+from .normalise import is_marker
 
 MUTATORS = {
     "append", "extend", "pop", "remove", "clear", "insert", "add", "discard", "update", "sort", "reverse",
@@ -116,6 +117,7 @@ class CFG:
         self._loop_stack: list[tuple[int, int]] = []  # (continue target, break target)
         self._handler_stack: list[list[int]] = []  # innermost try handlers entry nodes
         self._with_stack: list[int] = []
+        self._inl_targets: dict[str, int] = {}
         body = fnode.body if not isinstance(fnode, ast.Lambda) else [ast.Return(value=fnode.body)]
         last = self._seq(body, [self.entry])
         self._link(last, self.exit)
@@ -257,6 +259,16 @@ class CFG:
             self._with_stack.pop()
             self._link(out, ex.id)
             return [ex.id]
+        if isinstance(st, ast.Try) and is_marker(st):
+            # structured block of an absorbed helper (normalise.py): `raise __inl_ret_N` jumps to its end, nothing else does
+            tryin = self._new("join", None, st)
+            self.owner.setdefault(id(st), tryin.id)
+            self._link(preds, tryin.id)
+            end = self._new("join", None, st)
+            self._inl_targets[st.handlers[0].type.id] = end.id
+            body_out = self._seq(st.body, [tryin.id])
+            self._link(body_out, end.id)
+            return [end.id]
         if isinstance(st, ast.Try) or st.__class__.__name__ == "TryStar":
             handlers = []
             for h in st.handlers:
@@ -294,6 +306,9 @@ class CFG:
         self._exc_edges(n.id)
         if isinstance(st, ast.Return):
             self._edge(n.id, self.exit)
+            return []
+        if isinstance(st, ast.Raise) and is_marker(st):
+            self._edge(n.id, self._inl_targets[st.exc.id])
             return []
         if isinstance(st, ast.Raise):
             for t in self._raise_targets():
@@ -571,6 +586,30 @@ class FnFlow:
 
     def holds(self, node: ast.AST, text: str, pol: bool = True) -> bool:
         return (text, pol) in self.facts_for(node)
+
+    def reaching_defs(self, node: ast.AST, name: str) -> list[tuple[str, ast.AST]]:
+        """The definitions of local `name` (as in Prog.local_defs) that may reach the evaluation of `node`: a definition reaches it when
+        some CFG path leads from the defining statement to the use without passing another definition of the name.  Falls back to all
+        definitions when the use or a definition cannot be placed in the CFG (comprehension scopes)."""
+        defs = self.prog.local_defs(self.fn, name)
+        use = self.cfg.node_for(node)
+        if use is None or len(defs) <= 1:
+            return list(defs)
+        placed = []
+        for kind, dn in defs:
+            anchor = dn
+            if kind == "with":
+                anchor = dn.context_expr
+            nid = self.cfg.node_for(anchor)
+            if nid is None:
+                return list(defs)
+            placed.append((kind, dn, nid))
+        ids = {nid for _, _, nid in placed}
+        out = []
+        for kind, dn, nid in placed:
+            if self.cfg.reach(nid, use, avoid=ids - {nid}) or nid == use and kind in ("for", "walrus"):
+                out.append((kind, dn))
+        return out
 
 
 _flow_cache: dict = {}
